@@ -80,6 +80,7 @@ AllFlagWords  == 0..63
 Has(f, b) == (f \div b) % 2 = 1
 
 \* special depths (hwloc_get_type_depth_e)
+DEPTH_MULTIPLE == -2
 DEPTH_NUMANODE == -3
 DEPTH_BRIDGE   == -4
 DEPTH_PCIDEV   == -5
